@@ -388,7 +388,8 @@ Expected == /\ (stage = 2 /\ inst.fam \in {"dimer", "ferro", "mg", "chain2"}) =>
    E0 = E0x4 / 4, q = 2 nup - L:
      P1  max |psi.norm_test()| ~ 0 and psi.norm = 1                      (normalised, canonical form)
      P2  psi.get_total_charge() = q                                      (exact; not for diag_method ED_all)
-     P3  <psi|H|psi> = E + E_trunc(last update)                          (reported energy vs. expectation value;
+     P3  <psi|H|psi> = E + E_trunc(last update), and <psi|H|psi> = E if the last sweep reports no truncation error
+         (reported energy vs. expectation value; independent of lanczos_params['E_shift'];
          not claimed for a run that stops while a mixer is still enabled: its last environments were built from
          perturbed, non-canonical tensors, so E and E_trunc are not expectation values then; P4 is then claimed for
          <psi|H|psi> only)
